@@ -360,6 +360,7 @@ def sigma1(model, profile='quick'):
     add(['add_eltorito', {'bootfile_path': '/A.;1'}])
     add(['add_eltorito', {'bootfile_path': '/B.;1', 'boot_info_table': True}])
     add(['rm_eltorito', {}])
+    add(['duplicate_pvd', {}])
     # removals
     for op in removal_ops(model):
         add(op)
@@ -416,3 +417,50 @@ CFG256 = [mk(l, j, r, u, x) for l in (1, 2, 3, 4) for j in (None, 1, 2, 3)
 CFG_MULTI = [mk(3, joliet=3), mk(1, joliet=1, rr='1.09'), mk(3, joliet=3, udf=True),
              mk(3, joliet=3, rr='1.12', udf=True), mk(3, rr='1.09', udf=True),
              mk(4, joliet=2, rr='1.12', udf=True, xa=True)]
+
+
+def sigma6(model, profile='quick'):
+    """
+    Alphabet for the schedule property (C06): the general edits plus the calls
+    that do not go through _finish_add/_finish_remove (hybrid, hidden,
+    duplicate PVD), which is where a stale-metadata flag can be forgotten.
+    """
+    cfg = model.cfg
+    cand = []
+
+    def add(op):
+        if op is not None:
+            cand.append([op])
+    add(add_fp(cfg, 'A', '/', 'boot'))
+    add(add_fp(cfg, 'B', '/', 'c2049'))
+    add(add_fp(cfg, 'A', 'D1', 'c1'))
+    add(add_fp(cfg, 'LONGRR', '/', 'c1') if cfg.get('rr') else None)
+    add(add_dir(cfg, 'D1'))
+    add(['add_eltorito', {'bootfile_path': '/A.;1', 'boot_load_size': 4}])
+    add(['add_eltorito', {'bootfile_path': '/B.;1', 'boot_info_table': True}])
+    add(['add_isohybrid', {}])
+    add(['add_isohybrid', {'efi': True}] if False else None)
+    add(['rm_isohybrid', {}])
+    add(['rm_eltorito', {}])
+    add(['duplicate_pvd', {}])
+    add(['set_hidden', {'iso_path': '/B.;1'}])
+    for op in link_ops(cfg, model, 'L', ('B',), ('/',))[:3]:
+        add(op)
+    for op in symlink_ops(cfg)[:2]:
+        add(op)
+    for op in removal_ops(model, kinds=('rm_file',)):
+        add(op)
+    add(rm_dir(cfg, 'D1'))
+    if profile != 'quick':
+        add(['REOPEN', {}])
+    out = []
+    for step in cand:
+        m2 = enabled(model, step)
+        if m2 is not None:
+            # rm_isohybrid on a non-hybrid image is a no-op; skip it to keep branching down
+            if step[0][0] == 'rm_isohybrid' and model.hybrid is None:
+                continue
+            if step[0][0] == 'add_isohybrid' and model.hybrid is not None:
+                continue
+            out.append((step, m2))
+    return out
